@@ -1,9 +1,44 @@
-(** Property C12 — theorems only; proofs live in Proofs/. *)
-From Coq Require Import String List.
-From Zog Require Import Model.Val Model.Engine Spec.Sem Proofs.Refine.
+(** Property C12 — user callbacks run at the documented times with the node's own value. *)
+From Coq Require Import String List ZArith Bool.
+From Zog Require Import Model.Val Model.Engine Spec.Sem Proofs.Refine Proofs.ExactP Model.Objects Proofs.ObjectsP.
+Import ListNotations.
 
-(** The executable engine (flags, shared child context, mutable path stack, one issue log) computes
-    exactly the context-free semantics, for every schema, mode, input and destination. *)
+(** The engine's log of callback invocations is exactly the one the context-free semantics assigns:
+    each callback at the path of the node it is attached to, with that node's value (the value
+    itself for primitive tests, the destination for struct, slice, custom and PostTransform
+    callbacks — the semantics has no other value to give), in both modes, at every depth. *)
 Theorem C12_engine_computes_semantics : forall m s dat d, run m s dat d = sem_run m s dat d.
 Proof. exact run_is_sem_run. Qed.
 Print Assumptions C12_engine_computes_semantics.
+
+Theorem C12_test_receives_the_tested_value : forall dtype t v, t_id t <> 0 ->
+  exists rest, sem_test dtype t v = RC [] (fun p => mk_call p (t_id t) CbTest (Some v)) :: rest.
+Proof. exact test_receives_the_tested_value. Qed.
+Print Assumptions C12_test_receives_the_tested_value.
+
+(** PostTransforms: declaration order, each at most once, up to and including the first error,
+    which becomes one issue; none at all if an issue already exists *)
+Theorem C12_pts_prefix_in_order : forall wrap sw ps v,
+  exists k, ids (fst (sem_pts_loop wrap sw ps v)) = filter (fun i => negb (Nat.eqb i 0)) (map pt_id (firstn k ps))
+            /\ length (codes (fst (sem_pts_loop wrap sw ps v))) <= 1.
+Proof. exact pts_prefix_in_order. Qed.
+Print Assumptions C12_pts_prefix_in_order.
+Theorem C12_pts_skipped_when_an_issue_exists : forall wrap sw ps v, sem_pts wrap sw ps true v = ([], v).
+Proof. exact pts_skipped_when_an_issue_exists. Qed.
+Print Assumptions C12_pts_skipped_when_an_issue_exists.
+
+(** a Preprocess error or type mismatch becomes an issue and skips the wrapped schema *)
+Theorem C12_preprocess_error_skips_schema : forall pf e v d e0 err, pre_parse pf v = Some (inr err) ->
+  sem Parse (SPre pf e) (DVal v) d e0 = ((rcall (pre_id pf) CbPre None ++ [RI [] (fun q => mk_unknown_issue q (sch_dtype e) err)])%list, d).
+Proof. exact preprocess_error_skips_schema. Qed.
+Print Assumptions C12_preprocess_error_skips_schema.
+Theorem C12_preprocess_type_mismatch_skips_schema : forall pf e v d e0, pre_parse pf v = None ->
+  sem Parse (SPre pf e) (DVal v) d e0 = ([RI [] (fun q => mk_coerce_issue q (sch_dtype e))], d).
+Proof. exact preprocess_type_mismatch_skips_schema. Qed.
+Print Assumptions C12_preprocess_type_mismatch_skips_schema.
+
+(** ctx.Get inside any callback: exactly the values passed to this call through WithCtxValue *)
+Theorem C12_ctx_values_are_this_calls : forall d errs f k v k',
+  ctx_get (ctx_set (new_exec_ctx d errs f) k v) k' = if String.eqb k k' then Some v else None.
+Proof. exact ctx_values_are_this_calls. Qed.
+Print Assumptions C12_ctx_values_are_this_calls.
